@@ -50,7 +50,7 @@ class Polynomial:
         return self.args == other.args
 
     def __add__(self, other):
-        if isinstance(other, RationalPolynomial):
+        if isinstance(other, RationalPolynomial) or hasattr(other, 'algebra'):
             return NotImplemented
         if other == 0:
             return self
@@ -87,7 +87,7 @@ class Polynomial:
         return self.__add__(other)
 
     def __mul__(self, other):
-        if isinstance(other, RationalPolynomial):
+        if isinstance(other, RationalPolynomial) or hasattr(other, 'algebra'):
             return NotImplemented
         if self == 0 or other == 0:
             return self.__class__([])
@@ -209,6 +209,9 @@ class RationalPolynomial:
         return self.numer == other.numer and self.denom == other.denom
 
     def __add__(self, other):
+        if hasattr(other, 'algebra'):
+            # A multivector: let MultiVector.__radd__ treat self as a scalar.
+            return NotImplemented
         if not isinstance(other, self.__class__):
             other = self.__class__(other)
 
@@ -232,6 +235,9 @@ class RationalPolynomial:
         return self.__add__(other)
 
     def __mul__(self, other):
+        if hasattr(other, 'algebra'):
+            # A multivector: let MultiVector.__rmul__ treat self as a scalar.
+            return NotImplemented
         if isinstance(other, Polynomial):
             other = self.__class__(other)
         elif not isinstance(other, self.__class__):
@@ -272,6 +278,8 @@ class RationalPolynomial:
         return self.__class__(self.denom, self.numer)
 
     def __truediv__(self, other):
+        if hasattr(other, 'algebra'):
+            return NotImplemented
         if isinstance(other, Polynomial):
             other = self.__class__(other)
         if isinstance(other, self.__class__):
